@@ -1285,6 +1285,13 @@ std::string Generator::GeneratorImpl::generatePiecewiseElseCode(const std::strin
 
 std::string Generator::GeneratorImpl::generateCode(const AnalyserEquationAstPtr &ast) const
 {
+    // An incomplete AST (e.g. an operator that was not given all its operands) has
+    // no code to generate for the missing part.
+
+    if (ast == nullptr) {
+        return {};
+    }
+
     // Generate the code for the given AST.
     // Note: AnalyserEquationAst::Type::BVAR is only relevant when there is no
     //       model (in which case we want to generate something like dx/dt, as
@@ -1679,7 +1686,7 @@ std::string Generator::GeneratorImpl::generateCode(const AnalyserEquationAstPtr 
 
         break;
     case AnalyserEquationAst::Type::CI:
-        code = generateVariableNameCode(ast->variable(), ast->parent()->type() != AnalyserEquationAst::Type::DIFF);
+        code = generateVariableNameCode(ast->variable(), (ast->parent() == nullptr) || (ast->parent()->type() != AnalyserEquationAst::Type::DIFF));
 
         break;
     case AnalyserEquationAst::Type::CN:
